@@ -680,7 +680,9 @@ fn main() {
                 let q = ["exists", "is_dir", "is_file", "is_symlink", "is_symlink_dir", "is_symlink_file", "readlink", "readlink_abs", "entry", "mode"];
                 let mu = ["remove", "remove_all", "move_p", "symlink"];
                 let op = c["op"].as_str().unwrap();
-                if &a != l2 || !(q.contains(&op) || (dangling && mu.contains(&op))) {
+                // ("readlink / readlink_abs on a non-link fail": those two on every path)
+                let on_other = dangling && &a != l2 && ["readlink", "readlink_abs"].contains(&op);
+                if !on_other && (&a != l2 || !(q.contains(&op) || (dangling && mu.contains(&op)))) {
                     continue;
                 }
             }
